@@ -337,6 +337,9 @@ func (s *sys) resetFault(k int, ename string) error {
 	switch ename {
 	case "permdenied":
 		s.E = &fs.PathError{Op: "x", Path: "y", Err: avfs.ErrPermDenied}
+	case "notexist":
+		// an error of the kind the composites branch on (errors.Is(err, fs.ErrNotExist))
+		s.E = &fs.PathError{Op: "x", Path: "y", Err: avfs.ErrNoSuchFileOrDir}
 	default:
 		s.E = errors.New("c12: injected sentinel failure")
 	}
